@@ -106,6 +106,9 @@ def gen(rng, tier):
                 cur -= 1
             elif r < .9:
                 ops.append({"op": "del", "idx": cur + rng.randrange(3)})
+            elif cur >= 1:
+                # modDest addr=: one destination re-pointed at runtime (the harness supplies a live listener for the new address)
+                ops.append({"op": "mod", "idx": rng.randrange(cur), "inst": rng.choice(["", "a", "b7", "inst"])})
         for nm in rng.sample(names, 6):
             ops.append({"op": "q", "name": nm.encode().hex()})
         cases.append({"addrs": addrs, "ops": ops})
@@ -113,7 +116,7 @@ def gen(rng, tier):
 
 
 def enc_obs(o):
-    if o == "ok":
+    if o == "ok" or (isinstance(o, str) and o.startswith("ok:")):
         return -2
     if o == "err":
         return -3
@@ -122,11 +125,14 @@ def enc_obs(o):
 
 def to_coq(case, obs):
     ops = []
-    for op in case["ops"]:
+    for op, ob in zip(case["ops"], obs):
         if op["op"] == "add":
             ops.append("Add " + cbytes(op["addr"]))
         elif op["op"] == "del":
             ops.append("Del " + cnat(op["idx"]))
+        elif op["op"] == "mod":
+            # the new address is what the harness' listener got (reported in the observation)
+            ops.append("Mod %s %s" % (cnat(op["idx"]), cbytes(ob[3:] if isinstance(ob, str) and ob.startswith("ok:") else "127.0.0.1:1")))
         else:
             ops.append("Q " + cbytes(bytes.fromhex(op["name"])))
     c = ctuple(clist([cbytes(a) for a in case["addrs"]], "bytes"), clist(ops, "c15op"))
